@@ -920,6 +920,7 @@ func main() {
 	module := flag.String("module", modPath, "module path of the tree in the working directory")
 	pkgs := flag.String("pkgs", "", "comma-separated package directories (default: the pion/turn set)")
 	noOrders := flag.Bool("noorders", false, "do not extract the Teardown step orders")
+	consts := flag.String("consts", "", "write the package-level integer constants of the module as Coq definitions here and stop")
 	flag.Parse()
 	modPath = *module
 	if *pkgs != "" {
@@ -946,6 +947,13 @@ func main() {
 			fmt.Fprintf(os.Stderr, "lockskel: loading %s: %v\n", path, err)
 			os.Exit(2)
 		}
+	}
+	if *consts != "" {
+		if err := t.writeConsts(*consts); err != nil {
+			fmt.Fprintln(os.Stderr, "lockskel:", err)
+			os.Exit(2)
+		}
+		return
 	}
 	t.indexFields()
 	t.readGuards(*guards)
